@@ -11,8 +11,5 @@ echo "== new files =="
   if [ ! -e "/verif/$f" ]; then mkdir -p "$(dirname /verif/$f)"; cp "$W/$f" "/verif/$f"; echo "  + $f"; 
   elif ! cmp -s "$W/$f" "/verif/$f"; then case "$f" in harness/go.mod|harness/go.sum|coq/Gen/*) ;; *) echo "  ~ CHANGED (not copied): $f";; esac; fi
 done
-echo "== shared-file diffs =="
-for f in coq/_CoqProject checks_config.py known_findings.json MANIFEST.json check CONVENTIONS.md; do
-  if ! cmp -s "$W/$f" "/verif/$f"; then echo "--- $f"; diff "/verif/$f" "$W/$f" | head -80; fi
-done
+python3 /verif/tools/merge_shared.py "$N"
 echo "== patches =="; ls patches/$N 2>/dev/null
